@@ -97,7 +97,8 @@ class C15(PureCheck):
         E = {"k": "s", "v": [[[], [0] * 8]]}
         for sep in ([[[44, 32], list(ATTS[0])]], [[[45], list(ATTS[2])]], [], [[[], list(ATTS[1])]]):
             for items in ([Z, A], [Z, Z, B, A], [A, Z, B], [A, B, Z], [Z], [Z, Z], [E, A], [A, E], [B, A, B], []):
-                yield {"op": "join", "sep": sep, "items": items}
+                for it in (0, 2, 3, 5):
+                    yield {"op": "join", "sep": sep, "items": items, "it": it}
         # every line boundary str.splitlines knows (CR, CR LF, VT, FF, FS, GS, RS, NEL, LS, PS besides LF), at the
         # start, inside, doubled and at the end of the text, formatting changing at and inside the boundary
         for b in ([13], [13, 10], [11], [12], [28], [29], [30], [133], [8232], [8233], [10, 13]):
